@@ -340,8 +340,7 @@ PLAN["C13"] = {
                    "domain and every vDSO choice (1 060 992 maps) against five reference predicates derived from the statement",
     "verus": [],
     "kani": [{"tiers": Q, "jobs": 2, "timeout": 1500, "harnesses": {
-        "vk_aggregate_one_line_path": H("B", "MappingInfo::aggregate", "1 line, symbolic addresses/permissions/offset/vDSO address, name /a"),
-        "vk_aggregate_one_line_anonymous_gate": H("B", "MappingInfo::aggregate (gate naming)", "1 anonymous line, symbolic numbers and vDSO address")}}],
+        "vk_aggregate_one_line_path": H("B", "MappingInfo::aggregate", "1 line, symbolic addresses/permissions/offset/vDSO address, name /a")}}],
     "native": [{"stem": "maps_reader", "filter": "bprime_aggregate", "tiers": Q, "tests": {
         "bprime_aggregate_up_to_2_lines": H("B'", "MappingInfo::aggregate", "all maps of 1..=2 lines over the per-line domain x vDSO choices (12 416)"),
         "bprime_aggregate_up_to_3_lines": H("B'", "MappingInfo::aggregate", "all maps of 1..=3 lines (1 060 992)")}}],
